@@ -8,10 +8,13 @@ generated datagram several times -- client side through read_dns_withq ('A' case
 recvfrom()/recvmsg() pre-filling the whole 64 KB receive buffer with residue patterns 0..4 of
 wire_net.c residue_fill (zeros, 0xff, counter, label-like text, pointer-like bytes) and once with
 the buffer left alone (-1: it then really holds the earlier datagrams of the run, in a different
-order per round); all runs of one datagram must print the same result.  End-to-end variant: whole
-server and client histories (real dispatchers, sessions, raw frames, truncated copies of another
-client's long datagram right after it) under residues -1, 0, 3, 4 must produce the same
-datagrams, tun packets and session digests.
+order per round; in that round a datagram derived from a longer one -- a truncation, a changed
+RDLENGTH -- is received right after its parent, so the buffer holds the rest of the parent); all
+runs of one datagram must print the same result.  End-to-end variant: whole server and client
+histories (real dispatchers, sessions, raw frames; short/truncated copies of a long datagram
+right after it, from another or the same address; crafted raw-mode histories with frames cut to
+0..5 bytes) under residues -1, 0, 3, 4, each residue in fresh processes with identical chunking,
+must produce the same datagrams, tun packets and session digests.
 Correspondence: every result also equals the extracted model's (which never sees a residue)."""
 import os
 import vlib
@@ -681,7 +684,7 @@ def check(rep):
                        'duplicates/gaps/reversed; qdcount/ancount in {0,1,2,0x7fff,0x8000,0xffff}; headers of 0..12 bytes; flag words; raw '
                        'frames of length 0..20, 36, 100, 1000, 4000; random bytes; random mutations.  Every datagram: real read_dns (Q) and '
                        'real read_dns_withq (A, buffers 65536/4096/300) under residues 0,1,2,3,4 and -1 (buffer left alone), one round per '
-                       'residue in a different order; oracle: all runs of a datagram print the same result; correspondence: equals the '
+                       'residue in a different order, in round -1 every derived datagram right after its longer parent; oracle: all runs of a datagram print the same result; correspondence: equals the '
                        'extracted model.  Histories: srvlib/clilib histories + short datagrams derived from the preceding long one, under '
                        'residues -1,0,3,4.  distinct_nontrivial = distinct datagrams of >= 12 bytes')
     rep.cov['input_distribution'] = dict(g.stats)
